@@ -20,7 +20,8 @@ REQUIRED = [
     "DaeVerif.C20.Props.internal_steps_terminate",
     "DaeVerif.C20.Props.pending_implies_progress_possible",
     "DaeVerif.C20.Props.eventually_accepts_again",
-    "DaeVerif.C20.Props.answered_partial",
+    "DaeVerif.C20.Props.answered_full",
+    "DaeVerif.C20.Props.answer_written_before_release",
 ]
 
 KNOWN_STALE_BUSY = "c20-stale-busy-after-release"
